@@ -350,7 +350,7 @@ theorem tie_findEdgesOptimized_shape : QueryFns.findEdgesOptimized_shape =
 theorem tie_processOrEnqueueCell_shape : QueryFns.processOrEnqueueCell_shape =
     "if cond0(e.iter.CellID(), id) {e.processOrEnqueue(id, e.iter.IndexCell())} else {e.processOrEnqueue(id, nil)}" := rfl
 theorem tie_initQueue_shape : QueryFns.initQueue_shape =
-    "if cond0(len(e.indexCovering)) {e.iter = NewShapeIndexIterator(e.index)}; cb := e.target.capBound(); if cond1(cb.IsEmpty()) {return}; if cond2(e.opts.maxResults, e.iter.LocatePoint(cb.Center())) {e.processEdges(&queryQueueEntry{distance: val0(), id: e.iter.CellID(), indexCell: e.iter.IndexCell()}); if cond3(e.distanceLimit) {return}}; if cond4(len(e.indexCovering)) {e.initCovering()}; if cond5(e.distanceLimit) {range i := e.indexCovering {e.processOrEnqueue(e.indexCovering[i], e.indexCells[i])}} else {coverer := &RegionCoverer{MaxCells: 4, LevelMod: 1, MaxLevel: MaxLevel}; radius := val1(cb.Radius(), e.distanceLimit.chordAngleBound().Angle()); searchCB := CapFromCenterAngle(cb.Center(), radius); maxDistCover := coverer.FastCovering(searchCB); e.initialCells = CellUnionFromIntersection(e.indexCovering, maxDistCover); i, j := 0, 0; for cond6(i, len(e.initialCells)) {idI := e.initialCells[i]; for cond7(e.indexCovering[j], idI) {j++}; idJ := e.indexCovering[j]; if cond8(idI, idJ) {e.processOrEnqueue(idJ, e.indexCells[j]); i++; j++} else {r := e.iter.LocateCellID(idI); if cond9(r) {e.processOrEnqueue(e.iter.CellID(), e.iter.IndexCell()); lastID := val2(e.iter.CellID()); for cond10(i, len(e.initialCells), e.initialCells[i], lastID) {i++}} else {if cond11(r) {e.processOrEnqueue(idI, nil)}; i++}}}}" := rfl
+    "if cond0(len(e.indexCovering)) {e.iter = e.index.Iterator()}; cb := e.target.capBound(); if cond1(cb.IsEmpty()) {return}; if cond2(e.opts.maxResults, e.iter.LocatePoint(cb.Center())) {e.processEdges(&queryQueueEntry{distance: val0(), id: e.iter.CellID(), indexCell: e.iter.IndexCell()}); if cond3(e.distanceLimit) {return}}; if cond4(len(e.indexCovering)) {e.initCovering()}; if cond5(e.distanceLimit) {range i := e.indexCovering {e.processOrEnqueue(e.indexCovering[i], e.indexCells[i])}} else {coverer := &RegionCoverer{MaxCells: 4, LevelMod: 1, MaxLevel: MaxLevel}; radius := val1(cb.Radius(), e.distanceLimit.chordAngleBound().Angle()); searchCB := CapFromCenterAngle(cb.Center(), radius); maxDistCover := coverer.FastCovering(searchCB); e.initialCells = CellUnionFromIntersection(e.indexCovering, maxDistCover); i, j := 0, 0; for cond6(i, len(e.initialCells)) {idI := e.initialCells[i]; for cond7(e.indexCovering[j], idI) {j++}; idJ := e.indexCovering[j]; if cond8(idI, idJ) {e.processOrEnqueue(idJ, e.indexCells[j]); i++; j++} else {r := e.iter.LocateCellID(idI); if cond9(r) {e.processOrEnqueue(e.iter.CellID(), e.iter.IndexCell()); lastID := val2(e.iter.CellID()); for cond10(i, len(e.initialCells), e.initialCells[i], lastID) {i++}} else {if cond11(r) {e.processOrEnqueue(idI, nil)}; i++}}}}" := rfl
 theorem tie_initCovering_shape : QueryFns.initCovering_shape =
     "e.indexCovering = make([]CellID, 0, 6); next := NewShapeIndexIterator(e.index, IteratorBegin); last := NewShapeIndexIterator(e.index, IteratorEnd); last.Prev(); if cond0(next.CellID(), last.CellID()) {level, ok := next.CellID().CommonAncestorLevel(last.CellID()); if cond1(ok) {level = 0} else {level++}; lastID := last.CellID().Parent(level); for[id := next.CellID().Parent(level)] cond2(id, lastID) [id = val0(id)] {if cond3(id, next.CellID()) {continue}; cellFirst := next.clone(); next.seek(val1(id)); cellLast := next.clone(); cellLast.Prev(); e.addInitialRange(cellFirst, cellLast)}}; e.addInitialRange(next, last)" := rfl
 theorem tie_addInitialRange_shape : QueryFns.addInitialRange_shape =
